@@ -336,9 +336,9 @@ public:
     {
         using std::abs;
 
-        m_n = mat.rows();
-        if (m_n != mat.cols())
+        if (mat.rows() != mat.cols())
             throw std::invalid_argument("DoubleShiftQR: matrix must be square");
+        m_n = mat.rows();
 
         m_mat_H.resize(m_n, m_n);
         m_shift_s = s;
